@@ -365,11 +365,13 @@ class Operator(metaclass=NiftyMeta):
         from .simple_linear_operators import DomainChangerAndReshaper, ducktape
 
         if isinstance(name, str):  # convert to MultiDomain
-            tgt = self.target if is_operator(self) else self.domain
+            # Fields live on their domain, operators and Linearizations (whose
+            # domain is the Jacobian's domain) on their target
+            tgt = self.domain if (is_fieldlike(self) and not is_linearization(self)) else self.target
             return ducktape(None, tgt, name)(self)
         else:  # convert domain
             newdom = DomainTuple.make(name)
-            dom = self.domain if is_fieldlike(self) else self.target
+            dom = self.domain if (is_fieldlike(self) and not is_linearization(self)) else self.target
             return DomainChangerAndReshaper(dom, newdom)(self)
 
     def transpose(self, indices):
@@ -384,7 +386,7 @@ class Operator(metaclass=NiftyMeta):
         """
         from .transpose_operator import TransposeOperator
 
-        dom = self.domain if is_fieldlike(self) else self.target
+        dom = self.domain if (is_fieldlike(self) and not is_linearization(self)) else self.target
         return TransposeOperator(dom, indices)(self)
 
     def __repr__(self):
